@@ -205,6 +205,11 @@ def gen(repo):
         ("uring_validates_max_response_peers", has_guard(uring, r"config\.protocol\.max_response_peers\s*>\s*MAX_RESPONSE_PEERS_LIMIT_URING"), "uring/mod.rs SocketWorker::run"),
         ("http_validates_max_peers", has_guard(http_lib, r"config\.protocol\.max_peers\s*>\s*config::MAX_PEERS_LIMIT"), "crates/http/src/lib.rs run()"),
     ]
+    # connection.rs handle_request: is the scrape's hash list cut to max_scrape_torrents BEFORE it
+    # is split among the swarm workers?
+    guards.append(("http_scrape_cut_before_split",
+                   re.search(r"info_hashes\s*\.into_iter\(\)\s*\.take\(\s*self\s*\.config\s*\.protocol\s*\.max_scrape_torrents\s*\)", http_conn) is not None,
+                   "crates/http/src/workers/socket/connection.rs handle_request"))
     for name, val, src in guards:
         out.append("(* %s *)" % src)
         out.append("Definition %s : bool := %s." % (name, "true" if val else "false"))
